@@ -698,17 +698,20 @@ class BTree(Generic[KT, ET]):
         cloned = self.root.maybe_cow(self.creator)
         if cloned:
             self.root = cloned
-        elt = self.root.delete(key, None, exact)
+        try:
+            elt = self.root.delete(key, None, exact)
+        finally:
+            if len(self.root.elts) == 0:
+                # The root is now empty (rebalancing on the way down can empty it even
+                # if nothing was deleted, or if an exact delete raised ValueError).  If
+                # there is a child, then collapse this root level and make the child the
+                # new root.
+                if not self.root.is_leaf:
+                    assert len(self.root.children) == 1
+                    self.root = self.root.children[0]
         if elt is not None:
             # We deleted something
             self.size -= 1
-        if len(self.root.elts) == 0:
-            # The root is now empty (rebalancing on the way down can empty it even if
-            # nothing was deleted).  If there is a child, then collapse this root
-            # level and make the child the new root.
-            if not self.root.is_leaf:
-                assert len(self.root.children) == 1
-                self.root = self.root.children[0]
         return elt
 
     def delete_key(self, key: KT) -> ET | None:
